@@ -253,6 +253,27 @@ def unit_parse(ctx):
         ctx.require(got == want, q, "Value('5%s', denominator=%s) holds %s coins presented in %s, expected %s coins presented in %s" % (
             '' if unit is None else ' ' + unit, den_arg, got and got[0], got and got[1], want[0], want[1]), blk[0],
             "the presentation unit rescales the amount: Value('5 BTC', 'm') is 0.005 BTC and reaches transaction outputs as 500000 instead of 500000000 satoshi")
+    # prefix and currency code are separated by LENGTH: the code that follows a prefix may start with the prefix's own letters (sat + tBTC)
+    it2 = Interp(ctx.repo, 'values', self_cls='values:Value', hooks={'Network': lambda it_, a, kw, st_, node: S(('net', term(a[0]) if a else None))})
+    it2.consts = dict(it2.consts)
+    it2.consts['NETWORK_DEFINITIONS'] = {'bitcoin': {'currency_code': 'BTC'}, 'testnet': {'currency_code': 'tBTC'}}
+    it2.consts['NETWORK_DENOMINATORS'] = {1e-08: 'sat', 0.001: 'm', 1: '', 1000: 'k'}
+    for unit, wantv, wantn in (('sattBTC', 5e-08, 'testnet'), ('mtBTC', 0.005, 'testnet'), ('tBTC', 5.0, 'testnet'), ('satBTC', 5e-08, 'bitcoin'), ('ktBTC', 5000.0, 'testnet'), ('mBTC', 0.005, 'bitcoin')):
+        st = State(env={'self': S(SELF), 'value': '5 ' + unit, 'den_arg': None, 'network': 'bitcoin'})
+        st.heap[('attr', ('attr', SELF, 'network'), 'currency_code')] = 'BTC'
+        it2.frames.append([])
+        try:
+            end = it2.exec_block(blk[0].body, st)
+        except AnalysisError as e:
+            ctx.undecided('Value.__init__: string branch not evaluable for unit %s with two networks in the table: %s' % (unit, str(e)[:100]))
+        it2.frames.pop()
+        gv = None if end is None else end.heap.get(('attr', SELF, 'value'))
+        gn = None if end is None else term(end.heap.get(('attr', SELF, 'network')))
+        gn = gn[1] if isinstance(gn, tuple) and gn[0] == 'net' else gn
+        ctx.saw("Value('5 %s') with networks BTC / tBTC -> %s on %s" % (unit, gv if isinstance(gv, (int, float)) else show(term(gv))[:30], show(gn)[:20]))
+        ok = isinstance(gv, (int, float)) and abs(gv - wantv) <= 1e-12 * max(1.0, abs(wantv)) and gn == wantn
+        ctx.require(ok, q, "Value('5 %s') is %s on network %s, expected %s on %s" % (unit, 'a refusal' if end is None else (gv if isinstance(gv, (int, float)) else show(term(gv))[:40]), show(gn)[:20], wantv, wantn), blk[0],
+                    "the denominator prefix is stripped by its CHARACTERS instead of its length: 'sattBTC' loses the t of tBTC and 5 satoshi of testnet become 5 satoshi of bitcoin")
     for u in ('xyz', 'bits'):
         if outcomes[u] != 'raise':
             ctx.violate(q, 'a unit that is neither a currency code nor a denominator is ignored: the amount is read as whole coins', blk[0],
